@@ -217,6 +217,15 @@ def rejection_classes(ctx, prog, rid, eff):
             ctx.inst(rid, ins.short, 'class NORM established before the log', okc and g1 and g2 and have_finite,
                      'normalize_in_place_if_needed propagated and dominating the append: %s; refuses non-finite norm: %s; '
                      'refuses zero norm: %s; FINITE guard present: %s' % (okc, bool(g1), bool(g2), have_finite))
+            # what the normaliser leaves untouched must be what the index accepts: its in-range interval lies inside the index's acceptance interval
+            # (values of the named constants, read from the MIR operands)
+            nc = prog.named_constants()
+            b_lo, b_hi = nc.get('kyrodb_engine::hnsw_backend::NORMALIZATION_NORM_SQ_MIN'), nc.get('kyrodb_engine::hnsw_backend::NORMALIZATION_NORM_SQ_MAX')
+            i_lo, i_hi = nc.get('kyrodb_engine::hnsw_index::NORMALIZATION_NORM_SQ_MIN'), nc.get('kyrodb_engine::hnsw_index::NORMALIZATION_NORM_SQ_MAX')
+            okr = None not in (b_lo, b_hi, i_lo, i_hi) and i_lo <= b_lo <= 1.0 <= b_hi <= i_hi
+            ctx.inst(rid, nz.short, 'class NORM: the interval the normaliser leaves untouched lies inside the interval the index accepts', okr,
+                     'normaliser leaves [%s, %s] untouched; index accepts [%s, %s]%s' % (b_lo, b_hi, i_lo, i_hi, '' if okr else
+                      ' — a vector the normaliser passes as it is can be refused by the index AFTER the log append (compensating Delete erases the previous version on replay)'))
         elif cls == 'IDCAST':
             ctx.exception(rid, 'IDCAST', 'internal ids are store.embeddings.len() (usize) cast to u64; usize::try_from cannot fail on a 64-bit target')
             e = oi
